@@ -342,6 +342,15 @@ class Impl:
                 return [u.enc_obj(optree.tree_replace_nones(u.leaf(0, 777777), u.obj(s[2]), namespace=kw['namespace']))]
         if op == 'ordersm':
             return self.ordersm(s[1:])
+        if op == 'sorttwin':
+            import twins_impl
+            return twins_impl.sort_twin(u, [u.key(k) for k in s[1:]])
+        if op == 'classify':
+            import twins_impl
+            return twins_impl.classify(s[1])
+        if op == 'pyonelevel':
+            import twins_impl
+            return twins_impl.py_one_level(self, s[1] == '1', u.obj(s[2]))
         if op == 'regsm':
             import regsm_impl
             return regsm_impl.run(s[1] == '1', s[2:])
